@@ -15,6 +15,7 @@ mod c11;
 pub mod c06;
 mod c07;
 mod derive_checks;
+mod serde_checks;
 mod c12;
 mod c13;
 mod c14;
@@ -145,6 +146,8 @@ fn dispatch(id: &str, r: &Report) {
         "C14" => c14::run(r),
         "C15" => c15::run(r),
         "C16" => c16::run(r),
+        "C17" => serde_checks::c17(r),
+        "C18" => serde_checks::c18(r),
         "C19" => c19::run(r),
         _ => {
             eprintln!("unknown property {}", id);
